@@ -548,7 +548,8 @@ impl Memfs {
     pub(crate) fn _is_dir<T: AsRef<Path>>(&self, guard: &MemfsGuard, path: T) -> bool {
         let abs = unwrap_or_false!(self._abs(guard, path));
         match guard.get_entry(&abs) {
-            Some(entry) => entry.is_dir(),
+            // Link exclusion i.e. links even if pointing to a directory return false
+            Some(entry) => entry.is_dir() && !entry.is_symlink(),
             None => false,
         }
     }
@@ -1369,7 +1370,8 @@ impl VirtualFileSystem for Memfs {
         let guard = self.read_guard();
         let abs = unwrap_or_false!(self._abs(&guard, path));
         match guard.get_entry(&abs) {
-            Some(entry) => entry.is_file(),
+            // Link exclusion i.e. links even if pointing to a file return false
+            Some(entry) => entry.is_file() && !entry.is_symlink(),
             None => false,
         }
     }
